@@ -241,23 +241,28 @@ impl<'r, 'a> St<'r, 'a> {
             );
         }
         let seq = rec.blocking_seq.clone();
-        self.check_order(ctx, &seq);
+        let acquired = rec.acquired.clone();
+        self.check_order(ctx, &seq, &acquired);
         self.take_snapshot(ctx);
         self.probe(|p| p.acquisitions_ok += 1);
     }
 
     /// C08: blocking acquisitions made through sorting collections agree on one order
-    fn check_order(&mut self, ctx: &Ctx, seq: &[(Lid, bool)]) {
+    fn check_order(&mut self, ctx: &Ctx, seq: &[(Lid, bool)], acquired: &[(Lid, bool)]) {
         if !ctx.sorting || ctx.acq.api.is_try() {
             return;
         }
         let s = self.s();
+        // indivisibility of a unit is about the order in which its members were *taken* (by a
+        // waiting operation or by a try that succeeded); the pairwise relation below is about
+        // the operations that wait
+        let taken: Vec<Lid> = acquired.iter().map(|x| x.0).collect();
         let lids: Vec<Lid> = seq.iter().map(|x| x.0).collect();
         self.probe(|p| p.order_seqs += 1);
         // an owned collection is one indivisible unit, in its own listing order
         let spec = &self.r.world.spec;
         for (u, us) in spec.units.iter().enumerate() {
-            let pos: Vec<usize> = us.leaves.iter().filter_map(|l| lids.iter().position(|x| x == l)).collect();
+            let pos: Vec<usize> = us.leaves.iter().filter_map(|l| taken.iter().position(|x| x == l)).collect();
             if pos.is_empty() {
                 continue;
             }
@@ -266,7 +271,7 @@ impl<'r, 'a> St<'r, 'a> {
             sorted.sort();
             let contiguous = pos.len() == us.leaves.len() && sorted.windows(2).all(|w| w[1] == w[0] + 1);
             if !contiguous {
-                s.report(Clause::UnitSplit, format!("owned unit {} (leaves {:?}) was not acquired as one indivisible group: sequence {:?}", u, us.leaves, lids));
+                s.report(Clause::UnitSplit, format!("owned unit {} (leaves {:?}) was not acquired as one indivisible group: sequence {:?}", u, us.leaves, taken));
             }
         }
         let mut m = self.r.model.lock().unwrap();
@@ -306,7 +311,8 @@ impl<'r, 'a> St<'r, 'a> {
             );
         }
         let seq = self.s().api_closure_blocking_seq();
-        self.check_order(ctx, &seq);
+        let acquired = self.s().api_closure_acquired();
+        self.check_order(ctx, &seq, &acquired);
         self.take_snapshot(ctx);
         self.probe(|p| p.closures += 1);
     }
@@ -1549,8 +1555,9 @@ impl<'r, 'a> Th<'r, 'a> {
             let in_harness = loc.starts_with("src/") || loc.contains("/sim/src/");
             if msg.starts_with("happysim:") || in_harness {
                 s.report(Clause::Harness, format!("{} (at {})", msg, loc));
-            } else if self.st.raw_faults() && msg.contains("killed") {
-                // acquiring a lock that an earlier fault killed panics by design
+            } else if self.st.raw_faults() && (msg.contains("killed") || self.step_touches_faulted(step)) {
+                // acquiring a lock that an earlier fault killed panics by design (whatever the
+                // panic says)
                 self.st.probe(|p| p.lib_panics += 1);
                 self.after_raw_fault(step, &recs);
             } else if msg.contains("killed") {
@@ -1560,6 +1567,22 @@ impl<'r, 'a> Th<'r, 'a> {
             }
             self.st.r.model.lock().unwrap().in_flight[tid].clear();
         }
+    }
+
+    /// does the step's target contain a lock on which a raw fault has fired?
+    fn step_touches_faulted(&self, step: &Step) -> bool {
+        let inner = match step {
+            Step::InUnwind(s) => &**s,
+            s => s,
+        };
+        let spec = &self.st.r.world.spec;
+        let t = match inner {
+            Step::Acquire(a) => a.target,
+            Step::NonAcq(_, t) | Step::Destroy(t, _) => *t,
+            _ => return false,
+        };
+        let g = self.st.s().lock();
+        spec.flatten(&spec.targets[t], None).iter().any(|f| g.locks[f.lid].faulted)
     }
 
     fn after_raw_fault(&mut self, step: &Step, _recs: &[ApiRec]) {
